@@ -22,6 +22,8 @@
  *   align: the limit line of the event placed on the chunk boundary (+-3 bytes) of each of the four readers of
  *          the chain (echsq 32768, echsd socket 4096, echsd queue file 65536, echsx 4096), see enum_align();
  *          win=N (default 3, at most 30): the window of placements around the boundary
+ *   cal:   DTSTART..DTEND straddling every month boundary (and 28/29 Feb) of a leap, a common (and years=all: a century)
+ *          year, spans 2 s, 2 h, 26 h, 32 d, see enum_cal()
  *   maxsec=N (default 180) grid=0|1 (default 1) */
 #include "vdrv.h"
 #include "c14_hx.h"
@@ -369,12 +371,15 @@ run_chain(const char *user, int nfire)
 	return st;
 }
 
+/* DTSTART of the event of user_file(); only mode=cal moves it */
+static long long start_epoch = START_EPOCH;
+
 static void
 user_file(char *buf, size_t bsz, const char *kind, const char *val, int rrule, const char *cmd)
 {
 	char sta[32];
 
-	fmt_utc(sta, sizeof(sta), START_EPOCH);
+	fmt_utc(sta, sizeof(sta), start_epoch);
 	snprintf(buf, bsz, "BEGIN:VCALENDAR\nVERSION:2.0\nBEGIN:VEVENT\nUID:c14-limit\nSUMMARY:%s\n"
 		 "DTSTART:%s\n%s:%s\n%sEND:VEVENT\nEND:VCALENDAR\n", cmd, sta, kind, val,
 		 rrule ? "RRULE:FREQ=DAILY;COUNT=3\n" : "");
@@ -1437,6 +1442,56 @@ enum_align(void)
 	}
 }
 
+/* ---------------------------------------------------------------- cal: DTSTART..DTEND spans across calendar boundaries */
+/* The limit of a DTEND event is the difference of two calendar dates (make_task(): echs_instant_diff()); the chain
+ * mode keeps DTSTART on 2031-03-07.  Here DTSTART..DTEND straddles every month boundary (and 28/29 Feb of the leap
+ * year) of a leap, a common and -- years=all -- a century year, spans 2 s, 2 h, 26 h, 32 d, three placements: boundary
+ * in the middle, DTSTART one second before the boundary, DTEND one second after it.  Both dates are written by the
+ * driver's own days-from-civil arithmetic (fmt_utc), the limit L is their distance in seconds; everything else is
+ * one_chain_case(): echsx must arm exactly L seconds. */
+static void
+enum_cal(void)
+{
+	static const long SPAN[] = {2, 7200, 93600, 2764800};
+	static const struct {
+		long y;
+		const char *cls;
+	} YR[] = {{2028, "cal-leap"}, {2027, "cal-common"}, {2032, "cal-leap"}, {2100, "cal-century"}};
+	/* 2100 is offered only on request: is it a leap year to __doy()? (see the report of round 8) */
+	size_t ny = !strcmp(vd_opt("years", "std"), "all") ? 4 : 3;
+
+	if (dfc(2028, 3, 1) - dfc(2028, 2, 28) != 2 || dfc(2027, 3, 1) - dfc(2027, 2, 28) != 1 || dfc(2100, 3, 1) - dfc(2100, 2, 28) != 1 ||
+	    dfc(2000, 3, 1) - dfc(2000, 2, 28) != 2 || dfc(2028, 1, 1) != 21184 || rd_utc("20280301T000000Z") != dfc(2028, 3, 1) * 86400LL) {
+		fprintf(stderr, "c14_chain: oracle self-test failed (cal)\n");
+		_exit(3);
+	}
+	for (size_t yi = 0; yi < ny && !vd_stop(); yi++) {
+		long y = YR[yi].y;
+		int leap = dfc(y, 3, 1) - dfc(y, 2, 28) == 2;
+
+		/* boundary b: midnight that begins the 1st of month b+1 (b = 12: 1 Jan of the next year); b = 0: 29 Feb 00:00 */
+		for (int b = leap ? 0 : 1; b <= 12; b++) {
+			long long B = (b == 0 ? dfc(y, 2, 29) : b == 12 ? dfc(y + 1, 1, 1) : dfc(y, b + 1, 1)) * 86400LL;
+
+			for (size_t si = 0; si < sizeof(SPAN) / sizeof(*SPAN); si++) {
+				long L = SPAN[si];
+
+				for (int pl = 0; pl < (L > 2 ? 3 : 1); pl++) {
+					char val[64];
+
+					if (!vd_next()) {
+						continue;
+					}
+					start_epoch = pl == 0 ? B - L / 2 : pl == 1 ? B - 1 : B + 1 - L;
+					fmt_utc(val, sizeof(val), start_epoch + L);
+					one_chain_case(L, "DTEND", val, YR[yi].cls, 0, 0);
+				}
+			}
+		}
+	}
+	start_epoch = START_EPOCH;
+}
+
 /* ---------------------------------------------------------------- dump (for the real-time runs) */
 static int
 dump(void)
@@ -1478,6 +1533,8 @@ enumerate(void)
 		enum_due();
 	} else if (!strcmp(mode, "align")) {
 		enum_align();
+	} else if (!strcmp(mode, "cal")) {
+		enum_cal();
 	} else if (!strcmp(mode, "zones")) {
 		enum_zones();
 		enum_dst();
